@@ -298,3 +298,164 @@ def _step(name, budget=False):
 for _n in ("PaVeBa", "PaVeBaGP", "VOGP", "EpsilonPAL"):
     _step(_n)
 _step("PaVeBaPartialGP", budget=True)
+
+
+# ----------------------------------------------------------------------------------------------
+# Auer: composition, and the alignment of beta_t rows with the designs they are used for (C03)
+# ----------------------------------------------------------------------------------------------
+
+
+def _auer_step(m, nonemp):
+    @task("C03", "Auer.run_one_step[m=%d,%s]" % (m, "non-empirical beta" if nonemp else "any beta mode"))
+    def _t(t):
+        """run_one_step with the phases by contract.  The contracts of discarding / pareto_updating (proved for the real
+        bodies in C02 / C03 under this precondition) REQUIRE that row i of beta_t is the displayed half-width of the i-th
+        design in the CURRENT iteration order of S ('each design's own confidence width').  modeling establishes it for the
+        order S has at that moment; discarding then removes designs, so the order S has in pareto_updating is a new one."""
+        from .auer import auer_state, small_m, big_m, wsum
+        from .algos import REGARR
+        A = auer_state(t, m)
+        emp = z3.Bool("use_empirical_beta")
+        if nonemp:
+            t.assume(z3.Not(emp))
+        I = z3.IntSort()
+        pending = []
+        BT0 = [z3.Const("BTarr%d_0" % k, z3.ArraySort(I, z3.RealSort())) for k in range(m)]
+
+        class ArrRows:
+            def __init__(self, arrs, rows):
+                self.arrs, self.rows = arrs, rows
+
+            def clone(self, memo):
+                return self
+        A.obj.fields["beta_t"] = ArrRows(BT0, A.S.card())
+        A.obj.fields.update({"problem": None, "model": None})
+        i_ = z3.Int("i!q")
+        q_ = z3.Int("q!w")
+        s__ = z3.Int("s!w")
+        calls_pre = []
+
+        def aligned(o):
+            Sx = o.fields["S"]
+            bt = o.fields["beta_t"]
+            REG = o.fields["design_space"].fields["confidence_regions"].arr
+            return z3.ForAll([i_], z3.Implies(z3.And(0 <= i_, i_ < Sx.card()),
+                                              z3.And(*[z3.Select(bt.arrs[k], i_) == A.WID[k](z3.Select(REG, z3.Select(Sx.seq, i_))) for k in range(m)])))
+
+        def log(st, w):
+            st.roots.setdefault("calls", []).append(w)
+
+        def c_evaluating(ex, st, o, args, kwargs, node):
+            log(st, "evaluating")
+            n = SM.fresh_const(ex.ctx, "rows", I)
+            st.pc.append(n >= 0)
+            o.fields["sample_count"] = V.Z(o.fields["sample_count"]) + n
+            return [(st, None)]
+
+        def c_modeling(ex, st, o, args, kwargs, node):
+            log(st, "modeling")
+            Sx = o.fields["S"]
+            st.pc.extend(Sx.order_axioms())
+            newbt = [SM.fresh_const(ex.ctx, "BTarr%d" % k, z3.ArraySort(I, z3.RealSort())) for k in range(m)]
+            j_ = z3.Int("j!q")
+            # compute_beta, non-empirical branch: every row is the same vector (t2 = ones) -- proved in C04/Auer.compute_beta
+            st.pc.append(z3.Implies(z3.Not(emp), z3.ForAll([i_, j_], z3.And(*[z3.Select(newbt[k], i_) == z3.Select(newbt[k], j_) for k in range(m)]))))
+            REG = o.fields["design_space"].fields["confidence_regions"].arr
+            new = SM.fresh_const(ex.ctx, "REG", REGARR)
+            st.pc.append(z3.ForAll([e_], z3.Implies(z3.Not(z3.Select(Sx.mem, e_)), z3.Select(new, e_) == z3.Select(REG, e_))))
+            # design_space.update(model, beta_t, list(S)) with unit predictive std (variances not tracked during the update):
+            # the region of the i-th listed design gets half-width beta_t[i]   (C14 + C16)
+            st.pc.append(z3.ForAll([i_], z3.Implies(z3.And(0 <= i_, i_ < Sx.card()),
+                                                     z3.And(*[A.WID[k](z3.Select(new, z3.Select(Sx.seq, i_))) == z3.Select(newbt[k], i_) for k in range(m)]))))
+            old = o.fields["design_space"].fields["confidence_regions"]
+            o.fields["design_space"].fields["confidence_regions"] = RegionList(new, old.n, old.attrs)
+            o.fields["beta_t"] = ArrRows(newbt, Sx.card())
+            return [(st, None)]
+
+        def spec_sets(o):
+            Sx, Px = o.fields["S"].mem, o.fields["P"].mem
+            REG = o.fields["design_space"].fields["confidence_regions"].arr
+            cen = lambda d, k: A.CEN[k](z3.Select(REG, d))
+            wid = lambda d, k: A.WID[k](z3.Select(REG, d))
+            zmax = lambda xs: __import__("functools").reduce(lambda a, b: z3.If(b > a, b, a), xs)
+            zmin = lambda xs: __import__("functools").reduce(lambda a, b: z3.If(b < a, b, a), xs)
+            sm = lambda p_, q__: zmax([z3.RealVal(0), zmin([cen(q__, k) - cen(p_, k) for k in range(m)])])
+            bm = lambda p_, q__: zmax([z3.RealVal(0), zmax([cen(p_, k) + A.eps - cen(q__, k) for k in range(m)])])
+            return Sx, Px, sm, bm, wid
+
+        def c_discarding(ex, st, o, args, kwargs, node):
+            log(st, "discarding")
+            g = aligned(o)
+            pending.append(("call-pre(Auer.discarding): own widths", list(st.pc), g))
+            st.pc.append(g)
+            Sx, Px, sm, bm, wid = spec_sets(o)
+            cert = lambda p_: z3.Exists([q_], z3.And(z3.Select(Sx, q_), q_ != p_, z3.And(*[sm(p_, q_) > wid(p_, k) + wid(q_, k) for k in range(m)])))
+            _set(ex, st, o, "S", lambda d: z3.And(z3.Select(Sx, d), z3.Not(cert(d))), "S_disc")
+            return [(st, None)]
+
+        def c_pareto(ex, st, o, args, kwargs, node):
+            log(st, "pareto_updating")
+            st.pc.extend(o.fields["S"].order_axioms())
+            g = aligned(o)
+            pending.append(("call-pre(Auer.pareto_updating): own widths", list(st.pc), g))
+            st.pc.append(g)
+            Sx, Px, sm, bm, wid = spec_sets(o)
+            P1 = lambda p_: z3.And(z3.Select(Sx, p_), z3.Not(z3.Exists([q_], z3.And(z3.Select(Sx, q_), q_ != p_, z3.And(*[bm(p_, q_) < wid(p_, k) + wid(q_, k) for k in range(m)])))))
+            held = lambda p_: z3.Exists([s__], z3.And(z3.Select(Sx, s__), z3.Not(P1(s__)), z3.And(*[bm(s__, p_) <= wid(p_, k) + wid(s__, k) for k in range(m)])))
+            new = lambda p_: z3.And(P1(p_), z3.Not(held(p_)))
+            _set(ex, st, o, "S", lambda d: z3.And(z3.Select(Sx, d), z3.Not(new(d))), "S_prom")
+            _set(ex, st, o, "P", lambda d: z3.Or(z3.Select(Px, d), new(d)), "P_prom")
+            return [(st, None)]
+        mod = ALGOS["Auer"]
+        t.contracts[mod + "::Auer.evaluating"] = c_evaluating
+        t.contracts[mod + "::Auer.modeling"] = c_modeling
+        t.contracts[mod + "::Auer.discarding"] = c_discarding
+        t.contracts[mod + "::Auer.pareto_updating"] = c_pareto
+        t.assume(z3.Not(A.S0 == z3.EmptySet(I)))
+        paths = t.run(mod, "Auer.run_one_step", [], self_val=A.obj, setmode=True)
+        t.must_fail()
+        t.no_raise(paths)
+        t.prove_paths("phases_in_order", paths, lambda p: z3.BoolVal((p.st.roots.get("calls") or []) == ["evaluating", "modeling", "discarding", "pareto_updating"]))
+
+        def active(p):
+            S1, P1, U1, o = A.final(p)
+            return z3.And(subset(S1, A.S0), subset(A.P0, P1), disjoint(S1, P1), V.Z(o.fields["round"]) == A.round0 + 1,
+                          V.Bz(p.value) == (S1 == z3.EmptySet(I)))
+        t.prove_paths("active_step:S_shrinks_P_grows_disjoint_round_plus_1_flag_iff_done", paths, active)
+        # the two call-site preconditions (each design is compared using its OWN displayed half-width)
+        npre = len(t.pre)
+        t.finite = {"N": A.N, "replay": lambda mdl: ["exec(open('replays/known/C03_auer_stale_positional_widths.py').read())"]}
+        for nm, pc, g in pending:
+            t.prove(nm, g, assumptions=pc[npre:])
+        t.finite = None
+        t.implicit()
+    return _t
+
+
+_auer_step(2, True)
+_auer_step(2, False)
+
+
+def _rect_slack_shape(m, K):
+    @task("C06", "PaVeBa_family.rectangles.per_facet_slack[m=%d,K=%d]" % (m, K))
+    def _t(t):
+        """The PaVeBa family calls is_covered with cone_alpha_eps = alpha * eps, ONE ENTRY PER FACET (K entries).
+        'Each step completes without error for any polyhedral order of matching dimension, either confidence type':
+        the rectangle routine must accept that slack."""
+        from pyvc.harness import InArr, InOrder, InRect
+        order = t.inp("order", InOrder("o", K, m))
+        r1 = t.inp("r1", InRect("r1", m))
+        r2 = t.inp("r2", InRect("r2", m))
+        s = t.inp("s", InArr("s", (K,)))
+        paths = t.run("vopy/confidence_region.py", "RectangularConfidenceRegion.is_covered", [None, order, r1, r2, s])
+        t.no_raise(paths, clause="no-raise", ) if False else None
+        bad = [p for p in paths if p.kind == "raise"]
+        t.prove("no-raise", z3.And(*[z3.Not(p.cond()) for p in bad]) if bad else z3.BoolVal(True),
+                replay=lambda mdl: ["exec(open('replays/known/C06_rectangle_slack_shape_K_not_m.py').read())"])
+    return _t
+
+
+_rect_slack_shape(2, 2)
+_rect_slack_shape(3, 3)
+_rect_slack_shape(2, 3)
+_rect_slack_shape(3, 4)
